@@ -8,7 +8,9 @@ package verifharness
 
 import (
 	"context"
+	"errors"
 	"fmt"
+	"io"
 	"runtime"
 	"sort"
 	"strconv"
@@ -16,6 +18,7 @@ import (
 	"sync"
 	"testing"
 	"testing/synctest"
+	"time"
 
 	goat "github.com/avos-io/goat"
 	"github.com/avos-io/goat/gen/goatorepo"
@@ -67,16 +70,65 @@ func pxCensus(pats ...string) []int {
 // ---------------------------------------------------------------- scenario
 
 type DAct struct {
-	Op string `json:"op"` // deliver | failread | setw | read | write | cancelcall | cancelkey | stop
+	Op string `json:"op"` // deliver | failread | setw | read | write | cancelcall | cancelkey | stop | tick
 	K  int64  `json:"k,omitempty"`
 	V  int64  `json:"v,omitempty"`
 	C  int    `json:"c,omitempty"`
 	I  int    `json:"i,omitempty"`
-	M  string `json:"m,omitempty"` // ok | fail | block
+	M  string `json:"m,omitempty"` // setw: ok | fail | block; failread / cancelcall: the kind of error (see dmxErr)
+	S  string `json:"s,omitempty"` // deliver / write: shape of the envelope: "" full | nobody | emptybody | zero (the all-default Rpc{})
+	D  int    `json:"d,omitempty"` // tick: milliseconds of virtual time
+}
+
+// dmxNames: keys whose names collide under concatenation with each other and with decimal numbers
+// ("c-1"+"12" = "c-11"+"2" = "c-112"), prefixes of one another, and the empty name. Key function "names"
+// maps key k to dmxNames[k] (the model only sees the number).
+var dmxNames = []string{"", "c-1", "c-11", "c-12", "2", "12", "c-", "1", "c-112"}
+
+func dmxKeyStr(fn string, k int64) string {
+	if fn == "names" && k >= 0 && int(k) < len(dmxNames) {
+		return dmxNames[k]
+	}
+	return strconv.FormatInt(k, 10)
+}
+
+func dmxKeyNum(fn, s string, bad int64) int64 {
+	if fn == "names" {
+		for i, n := range dmxNames {
+			if n == s {
+				return int64(i)
+			}
+		}
+		return bad
+	}
+	n, err := strconv.ParseInt(s, 10, 64)
+	if err != nil {
+		return bad
+	}
+	return n
+}
+
+// dmxErr: the error values the environment hands to the code: plain ones and ones that WRAP them
+func dmxErr(kind string, dflt error) error {
+	switch kind {
+	case "eof":
+		return io.EOF
+	case "wrapeof":
+		return fmt.Errorf("transport: %w", io.EOF)
+	case "canceled":
+		return context.Canceled
+	case "wrapcanceled":
+		return fmt.Errorf("transport: %w", context.Canceled)
+	case "deadline":
+		return context.DeadlineExceeded
+	case "wrapdeadline":
+		return fmt.Errorf("call: %w", context.DeadlineExceeded)
+	}
+	return dflt
 }
 
 type dmxScenario struct {
-	KeyFn string   `json:"keyfn"` // src | dst | id | const
+	KeyFn string   `json:"keyfn"` // src | dst | id | const | names
 	ByRef bool     `json:"byref,omitempty"`
 	Acts  []DAct   `json:"acts"`
 	Tags  []string `json:"tags,omitempty"`
@@ -101,6 +153,8 @@ func dmxKeyOf(fn string, r *Rpc) int64 {
 		return parseK(r.GetHeader().GetDestination())
 	case "id":
 		return int64(r.GetId() % 7)
+	case "names":
+		return dmxKeyNum("names", r.GetHeader().GetSource(), -1)
 	default:
 		return 0
 	}
@@ -120,6 +174,7 @@ type dmxObs struct {
 	Dw      int      `json:"dw"`
 	Keys    []int64  `json:"keys"`
 	Crash   bool     `json:"crash"`
+	Ctl     int      `json:"ctl"` // Cancel / Stop calls that have not returned
 }
 
 func (o dmxObs) coq() string {
@@ -135,8 +190,8 @@ func (o dmxObs) coq() string {
 	for i, k := range o.Keys {
 		keys[i] = coqZ(k)
 	}
-	return fmt.Sprintf("(mkDObs %s %s %s %s %s %d %s %s)", coqList(ann), coqList(o.Rets), coqList(o.Shw), coqList(pend),
-		coqBool(o.Run), o.Dw, coqList(keys), coqBool(o.Crash))
+	return fmt.Sprintf("(mkDObs %s %s %s %s %s %d %s %s %d)", coqList(ann), coqList(o.Rets), coqList(o.Shw), coqList(pend),
+		coqBool(o.Run), o.Dw, coqList(keys), coqBool(o.Crash), o.Ctl)
 }
 
 type dmxRig struct {
@@ -153,18 +208,31 @@ type dmxRig struct {
 	nDel  int
 	lastW int
 	nAnn  int
+	ctl   int // Cancel / Stop calls in progress
 }
 
 func envCoq(k, v int64) string { return fmt.Sprintf("(mkEnv %s %s)", coqZ(k), coqZ(v)) }
 
-func (r *dmxRig) mkRpc(k, v int64, write bool) *Rpc {
+func (r *dmxRig) mkRpc(k, v int64, write bool, shape string) *Rpc {
 	r.nDel++
-	h := &goatorepo.RequestHeader{Method: "/x/y", Source: fmt.Sprintf("k%d", k), Destination: fmt.Sprintf("k%d", k)}
+	name := fmt.Sprintf("k%d", k)
+	if r.sc.KeyFn == "names" {
+		name = dmxKeyStr("names", k)
+	}
+	h := &goatorepo.RequestHeader{Method: "/x/y", Source: name, Destination: name}
 	id := uint64(k) + 7*uint64(r.nDel)
 	if write {
 		h.Source = "srv"
 	}
 	rpc := &Rpc{Id: id, Header: h, Body: &goatorepo.Body{Data: payloadOf(v)}}
+	switch shape {
+	case "nobody": // no body at all
+		rpc.Body = nil
+	case "emptybody": // a body of zero bytes
+		rpc.Body = &goatorepo.Body{Data: []byte{}}
+	case "zero": // the all-default envelope (its key is whatever the key function makes of it)
+		rpc = &Rpc{}
+	}
 	r.orig[v] = clone(rpc)
 	return rpc
 }
@@ -172,7 +240,15 @@ func (r *dmxRig) mkRpc(k, v int64, write bool) *Rpc {
 // tokenChecked returns the payload token of an envelope that came out of the
 // code under test, or -777 when the envelope is not the one the harness made.
 func (r *dmxRig) tokenChecked(x *Rpc) int64 {
-	if x == nil || x.GetBody() == nil {
+	if x == nil {
+		return -777
+	}
+	if len(x.GetBody().GetData()) == 0 { // a shape without payload: it must be one of those the harness made
+		for v, o := range r.orig {
+			if len(o.GetBody().GetData()) == 0 && proto.Equal(o, x) {
+				return v
+			}
+		}
 		return -777
 	}
 	v := tokenOf(x.GetBody().GetData())
@@ -183,14 +259,14 @@ func (r *dmxRig) tokenChecked(x *Rpc) int64 {
 	return v
 }
 
-func (r *dmxRig) resCoq(rpc *Rpc, err error, write bool) string {
+func (r *dmxRig) resCoq(rpc *Rpc, err error, write bool, ctxErr error) string {
 	if err == nil {
 		if write {
 			return "RWrote"
 		}
 		return "(RGot " + envCoq(dmxKeyOf(r.sc.KeyFn, rpc), r.tokenChecked(rpc)) + ")"
 	}
-	if err == context.Canceled {
+	if err == context.Canceled || (ctxErr != nil && errors.Is(err, ctxErr)) { // the call's own context (whatever error it ended with)
 		return "RErrCtx"
 	}
 	if strings.Contains(err.Error(), "demux connection cancelled") {
@@ -202,13 +278,16 @@ func (r *dmxRig) resCoq(rpc *Rpc, err error, write bool) string {
 func (r *dmxRig) do(a DAct) string {
 	switch a.Op {
 	case "deliver":
-		rpc := r.mkRpc(a.K, a.V, false)
+		rpc := r.mkRpc(a.K, a.V, false, a.S)
 		k := dmxKeyOf(r.sc.KeyFn, rpc)
 		r.ep.Deliver(rpc)
 		return "ADeliver " + envCoq(k, a.V)
 	case "failread":
-		r.ep.FailRead(errInjected)
+		r.ep.FailRead(dmxErr(a.M, errInjected))
 		return "AFailRead"
+	case "tick":
+		time.Sleep(time.Duration(a.D) * time.Millisecond) // virtual time: every timer due within it fires
+		return "ATick"
 	case "setw":
 		switch a.M {
 		case "ok":
@@ -235,7 +314,7 @@ func (r *dmxRig) do(a DAct) string {
 		var wr *Rpc
 		if a.Op == "write" {
 			// the key of a written envelope is whatever the key function says; it plays no role
-			wr = r.mkRpc(a.K, a.V, true)
+			wr = r.mkRpc(a.K, a.V, true, a.S)
 			term = fmt.Sprintf("AWrite %d %s", a.C, envCoq(dmxKeyOf(r.sc.KeyFn, wr), a.V))
 		}
 		if rw == nil {
@@ -259,10 +338,10 @@ func (r *dmxRig) do(a DAct) string {
 				}()
 				if wr != nil {
 					err := rw.Write(c.ctx, wr)
-					res = r.resCoq(nil, err, true)
+					res = r.resCoq(nil, err, true, c.ctx.Err())
 				} else {
 					rpc, err := rw.Read(c.ctx)
-					res = r.resCoq(rpc, err, false)
+					res = r.resCoq(rpc, err, false, c.ctx.Err())
 				}
 			}()
 			r.mu.Lock()
@@ -279,35 +358,45 @@ func (r *dmxRig) do(a DAct) string {
 		}
 		r.mu.Unlock()
 		if c != nil {
-			c.ctx.finish(context.Canceled)
+			c.ctx.finish(dmxErr(a.M, context.Canceled))
 		}
 		return fmt.Sprintf("ACancelCall %d", a.I)
-	case "cancelkey":
+	case "cancelkey", "stop":
+		// Cancel and Stop run on a goroutine of their own: whether they RETURN is observed (o_ctl), not assumed
 		k := a.K
 		if r.sc.KeyFn == "const" {
 			k = 0
 		}
-		func() {
+		r.mu.Lock()
+		r.ctl++
+		r.mu.Unlock()
+		go func() {
 			defer func() {
-				if p := recover(); p != nil {
-					r.mu.Lock()
+				p := recover()
+				r.mu.Lock()
+				if p != nil {
 					r.crash = true
-					r.mu.Unlock()
 				}
+				r.ctl--
+				r.mu.Unlock()
 			}()
-			r.d.Cancel(strconv.FormatInt(k, 10))
+			if a.Op == "stop" {
+				r.d.Stop()
+			} else {
+				r.d.Cancel(dmxKeyStr(r.sc.KeyFn, k))
+			}
 		}()
+		if a.Op == "stop" {
+			return "AStop"
+		}
 		return "ACancelKey " + coqZ(k)
-	case "stop":
-		r.d.Stop()
-		return "AStop"
 	}
 	panic("unknown op " + a.Op)
 }
 
 func (r *dmxRig) snapshot() dmxObs {
 	r.mu.Lock()
-	o := dmxObs{Ann: []int64{}, Rets: append([]string{}, r.rets...), Shw: []string{}, Pending: []int{}, Keys: []int64{}, Crash: r.crash}
+	o := dmxObs{Ann: []int64{}, Rets: append([]string{}, r.rets...), Shw: []string{}, Pending: []int{}, Keys: []int64{}, Crash: r.crash, Ctl: r.ctl}
 	r.rets = r.rets[:0]
 	nNew := len(r.conns) - r.nAnn
 	r.nAnn = len(r.conns)
@@ -338,11 +427,7 @@ func (r *dmxRig) snapshot() dmxObs {
 	o.Run = cs[0] > 0
 	o.Dw = cs[1]
 	for _, k := range r.d.VerifDemuxKeys() {
-		n, err := strconv.ParseInt(k, 10, 64)
-		if err != nil {
-			n = -996
-		}
-		o.Keys = append(o.Keys, n)
+		o.Keys = append(o.Keys, dmxKeyNum(r.sc.KeyFn, k, -996))
 	}
 	sort.Slice(o.Keys, func(i, j int) bool { return o.Keys[i] < o.Keys[j] })
 	return o
@@ -363,7 +448,7 @@ func runDmxScenario(t *testing.T, idx int, kind string, sc dmxScenario, em *Emit
 				rig.mu.Lock()
 				rig.seenK = append(rig.seenK, k)
 				rig.mu.Unlock()
-				return strconv.FormatInt(k, 10)
+				return dmxKeyStr(sc.KeyFn, k)
 			},
 			func(rw goat.RpcReadWriter) {
 				rig.mu.Lock()
